@@ -127,6 +127,17 @@ class Boom(Exception):
     pass
 
 
+class BoomOS(Boom, FileNotFoundError):
+    """an exception family a cache layer might mistake for a failure of its own backend"""
+
+
+class BoomKey(Boom, KeyError):
+    pass
+
+
+FAULT_KINDS = {"exc": Boom, "os": BoomOS, "key": BoomKey}
+
+
 class Model:
     def __init__(self, prog, info, tid):
         self.prog = prog
@@ -306,14 +317,14 @@ class World:
     def close(self):
         self.sm.restore()
 
-    def ctx(self, name, fault=None):
+    def ctx(self, name, fault=None, fault_kind="exc"):
         c = dict(CONTEXTS[name])
         counts = self.counts
 
         def tick(n):
             counts[n] = counts.get(n, 0) + 1
             if n == fault:
-                raise Boom(n)
+                raise FAULT_KINDS[fault_kind](n)
             return ""
 
         c["tick"] = tick
@@ -348,13 +359,14 @@ class World:
             elif kind == "fault":
                 # a render during which the body of one section raises (if that section runs at all)
                 cname, sec = ev[2], ev[3]
+                fkind = ev[4] if len(ev) > 4 else "exc"
                 self.counts.clear()
                 m.counts = {}
                 del self.cc.LOG[:]
                 m.lead = self.skeleton("")
                 self.current_v = CONTEXTS[cname]["v"]
                 try:
-                    got = t.render(**self.ctx(cname, fault=sec))
+                    got = t.render(**self.ctx(cname, fault=sec, fault_kind=fkind))
                     raised = False
                 except Boom:
                     raised = True
@@ -488,6 +500,10 @@ def events(cfg):
                 secs.append("k")
             for sec in secs:
                 ev.append(("fault", ti, "c1", sec))
+            for sec in secs[:1]:
+                # (the outcome of a fault does not depend on its class in a correct implementation: these add no states)
+                ev.append(("fault", ti, "c1", sec, "os"))
+                ev.append(("fault", ti, "c1", sec, "key"))
         if "page" in c:
             ev.append(("invalidate_body", ti))
         if "d" in c:
